@@ -581,6 +581,26 @@ func runC06(c *core.Ctx) {
 // runTimePredicates: exhaustive truth tables of the shard-group time predicates (shared by C06, C08, C17).
 func runTimePredicates(c *core.Ctx) {
 	{
+		// the lookup of the live group for a timestamp examines every group of the policy: the list is ordered by
+		// effective end and keeps deleted groups, so no order of start times may be assumed (no break/goto out of the
+		// scan; CreateShardGroup uses this lookup as its "already exists" test)
+		lf := c.Fn(metap + ".(*RetentionPolicyInfo).ShardGroupByTimestamp")
+		var scan *ast.RangeStmt
+		ast.Inspect(lf.Body, func(nd ast.Node) bool {
+			if rs, ok := nd.(*ast.RangeStmt); ok && scan == nil {
+				scan = rs
+			}
+			return true
+		})
+		if scan == nil {
+			c.Check("group-lookup-scans-every-group", lf.Name+"/scan", lf.PosStr(), false, "undecided: no range loop over the shard groups in the lookup")
+		} else {
+			exits := loopEarlyExits(c, scan.Body)
+			c.Check("group-lookup-scans-every-group", lf.Name+"/scan", c.P.Pos(scan.Pos()), len(exits) == 0,
+				"the lookup stops scanning early ("+strings.Join(exits, ", ")+"): a live group behind the stopping point is not found, and CreateShardGroup then creates a second live group over the same time range")
+		}
+	}
+	{
 		pc := &core.PredCompiler{P: c.P}
 		n := 0
 		check := func(key string, f *core.FuncInfo, x ast.Expr, roles map[string]string, spec *core.BExpr) {
